@@ -249,7 +249,13 @@ fn panicking_function() -> Function<DefaultNumericTypes> {
 fn build_ctx(setup: &Setup, disabled: bool) -> Ctx {
     let mut ctx = Ctx::new();
     for (n, v) in &setup.vars {
-        ctx.set_value(n.clone(), v.clone()).expect("setup");
+        // the two shared HashMapContexts differ in their string values (per-node caches keyed by
+        // operand values see different operands when one tree is evaluated against both)
+        let v = match v {
+            Value::String(s) if disabled => Value::String(format!("{}~", s)),
+            other => other.clone(),
+        };
+        ctx.set_value(n.clone(), v).expect("setup");
     }
     for f in &setup.fns {
         if let Some(name) = FN_NAMES.iter().copied().find(|n| n == f) {
@@ -644,6 +650,19 @@ pub fn run(w: &Workload, cfg: sched::SimConfig) -> Result<RunOutcome, String> {
             actual: format!("PANIC: {}", msg),
         });
     }
+    if finding.is_none() && report.deadlock {
+        finding = Some(CFinding {
+            class: "deadlock".into(),
+            thread: 0,
+            op: 0,
+            expected: "every thread obtains the result of the sequential evaluation".into(),
+            actual: format!(
+                "all live threads are stuck in primitives of the library and nothing moved for {} s",
+                sched::WATCHDOG_S
+            ),
+        });
+        return Ok(RunOutcome { finding, report });
+    }
     if finding.is_none() {
         if let Some(t) = report.no_progress {
             finding = Some(CFinding {
@@ -817,7 +836,17 @@ pub fn miri_workload(seed: u64) -> Workload {
             ];
             w.sources = vec!["(1 + 2) * (3 + 4) + a".to_string(), "a + b * 2 - len(c)".to_string()];
             for t in 0..n_threads {
-                let mut ops = vec![TOp::EvalTree { tree: 0, ctx: CtxSel::Main, entry: 0 }];
+                // all threads start on the same fresh tree at the same time, against two contexts
+                let (c1, c2) = if t % 2 == 0 {
+                    (CtxSel::Main, CtxSel::NoBuiltins)
+                } else {
+                    (CtxSel::NoBuiltins, CtxSel::Main)
+                };
+                let mut ops = vec![TOp::EvalTree { tree: 1, ctx: c1, entry: 0 }];
+                ops.push(TOp::EvalTree { tree: 1, ctx: c2, entry: 0 });
+                ops.push(TOp::EvalTree { tree: 1, ctx: c1, entry: 0 });
+                ops.push(TOp::EvalTree { tree: 1, ctx: c2, entry: 0 });
+                ops.push(TOp::EvalTree { tree: 0, ctx: CtxSel::Main, entry: 0 });
                 ops.push(TOp::EvalTree { tree: 1 + (t % 2), ctx: CtxSel::Main, entry: 0 });
                 ops.push(if t % 2 == 0 { TOp::EvalStr { src: 0, ctx: CtxSel::Main } } else { TOp::Iter { tree: 2 } });
                 ops.push(TOp::EvalTree { tree: 0, ctx: CtxSel::NoBuiltins, entry: 1 });
